@@ -371,10 +371,19 @@ class Gen:
     def common(self, scope):
         ch = self.ch
         blocks = []
+        dims = {}
         for _ in range(ch.weighted([(3, 1), (1, 2)])):
             nm = self.name("blk") if ch.bool(3, 4) or any(b[0] is None for b in blocks) else None
-            blocks.append([nm, self._plain_vars(scope, 2)])
-        scope["decls"].append({"d": "common", "blocks": blocks, "doc": self.doc(("common", None))})
+            names = self._plain_vars(scope, 2)
+            if "common_bounds" not in self.excl and ch.bool(1, 3):
+                # FORTRAN 77 style: the type is declared on its own, the COMMON statement gives the array bounds
+                for d in scope["decls"]:
+                    if d["d"] == "var" and d["ents"][0]["name"] == names[0] and not d.get("dimattr"):
+                        d["dimattr"] = "(5)"
+                        d["dim_elsewhere"] = True
+                        dims[names[0]] = "(5)"
+            blocks.append([nm, names])
+        scope["decls"].append({"d": "common", "blocks": blocks, "dims": dims, "doc": self.doc(("common", None))})
 
     def enum(self):
         ch = self.ch
